@@ -235,6 +235,7 @@ def run(ctx):
     # the same datagrams as they really arrive: through DATAInterface.recv_tx_msg() on a socket (data_if.py is anchored here: its
     # receive size and version filter stand between trxcon's octets and the parser).  A datagram trxcon emits must come out of the
     # interface as the very message the parser gives on the full octets - and so must every valid Tx message of the toolkit itself
+    U.negotiation_check(ctx, "c04")
     import logging as _logging
     from .. import fakesock
     fakesock.install()
